@@ -188,4 +188,15 @@ pub fn run(r: &mut Runner) {
             rec.record(l, i as u64, v);
         }
     });
+    {
+        let org = crate::organic::states(if quick { 1 } else { 2 });
+        let no = org.len();
+        r.notes.push(format!("organic operands: {} chain states (depth {} from the C01 seeds)", no, if quick { 1 } else { 2 }));
+        r.par("organic operands (chain results)", no.div_ceil(64), no as u64, |c, l| {
+            for i in (c * 64)..((c + 1) * 64).min(no) {
+                let v = judge(org[i], Some(l));
+                rec.record(l, (1u64 << 60) + i as u64, v);
+            }
+        });
+    }
 }
